@@ -207,6 +207,18 @@ def templates():
     out.append([LOG, ("set", "b", ("block", [mark(1), I(1), ("s", "last")])), ("set", "e", ("block", [])),
                 ("set", "l", ("for", "k", ("post", "iter", ("array", [I(1)])), ("block", [I(5)]))),
                 ("set", "w", ("while", ("bin", "lt", I(1), I(0)), ("block", [I(5)]))), ("tuple", [V("b"), V("e"), V("l"), V("w")])])
+    # the default arm is an arm like any other: written above another arm it wins (arms are tried top to bottom)
+    for x in (1, 2, 3):
+        m1 = ("match", ("call", V("idu"), [I(x)]), [("val", [I(1)], ("block", [mark(1), ("s", "one")])), ("other", ("block", [mark(2), ("s", "default")])),
+                                                   ("val", [I(2)], ("block", [mark(3), ("s", "two")]))])
+        m2 = ("match", ("call", V("idu"), [I(x)]), [("ty", "s", STR, ("block", [mark(1), I(10)])), ("other", ("block", [mark(2), I(20)])), ("ty", "n", INT, ("block", [mark(3), I(30)]))])
+        m3 = ("match", ("call", V("idu"), [I(x)]), [("other", ("block", [mark(2), I(20)])), ("ty", "n", INT, ("block", [mark(3), I(30)])), ("val", [I(x)], ("block", [mark(4), I(40)]))])
+        out.append([LOG, idu(U), ("set", "r", ("tuple", [m1, m2, m3])), ("tuple", [V("r"), ("pre", "deref", V("log"))])])
+        out.append([LOG, idu(U), ("set", "i", ("mut", INT, I(0))), ("set", "n", ("mut", INT, I(0))),
+                    ("loop", ("block", [("assign", "add", V("i"), I(1)), ("assign", "add", V("n"), I(1)),
+                                        ("match", ("call", V("idu"), [("pre", "deref", V("i"))]), [("val", [I(1)], ("block", [("continue",)])), ("other", ("block", [("break",)])),
+                                                                                                   ("val", [I(2)], ("block", [("continue",)]))])])),
+                    ("tuple", [("pre", "deref", V("n")), ("pre", "deref", V("log"))])])
     return out
 
 
